@@ -285,6 +285,17 @@ def store_rules(ctx, facts):
             ctx.violation("PROV", fid, "%s write unpaired" % f, hirq.loc(w), "`%s` has no matching write of self.%s[%s] moving the same element: values and indices would fall out of step" % (nf.nf(w)[:60], other, i))
         allowed = ["param #2:*", "self.values"] if f == "values" else ["param #3:*", "self.indices"]
         check_roots(ctx, "PROV", fid, "value written to %s" % f, hirq.loc(w), sl.roots(w["r"]), allowed)
+    # block shifts: `values.copy_within(r, d)` must come with `indices.copy_within(r, d)` (same range, same destination, same block)
+    cw = {f_: [x for x in self_method_calls(fn, f_, ["copy_within"])] for f_ in ("values", "indices")}
+    for f_, other in (("values", "indices"), ("indices", "values")):
+        for x in cw[f_]:
+            n += 1
+            args = [nf.nf(a, True) for a in x["args"]]
+            mate = [y for y in cw[other] if t.parent.get(id(y)) is t.parent.get(id(x)) and [nf.nf(a, True) for a in y["args"]] == args]
+            if mate:
+                ctx.ok("PROV", fid, "%s.copy_within(%s) together with %s.copy_within of the same block" % (f_, ", ".join(args)[:50], other), hirq.loc(x))
+            else:
+                ctx.violation("PROV", fid, "%s shifted alone" % f_, hirq.loc(x), "`%s` has no matching self.%s.copy_within with the same range and destination: values and indices would fall out of step" % (hirq.show(x)[:60], other))
     return n
 
 
@@ -483,11 +494,5 @@ def run(ctx, facts):
     C13.require_reset_prefix(ctx, facts)
     from . import C02
     MT = "maxvaluetrack::MaxValueTracker::<V>::"
-    shapes = {"get_max_value": "self.values[self.last_index]", "is_update_possible": "(value < self.values[self.last_index])"}
-    for name, want in shapes.items():
-        f = facts.fn(MT + name)
-        got = nf.nf(f["hir"]).strip("{}")
-        if got.replace(" ", "") == want.replace(" ", ""):
-            ctx.ok("TRACKERSHAPE", MT + name, got, hirq.loc(f))
-        else:
-            ctx.violation("TRACKERSHAPE", MT + name, "accessor shape", hirq.loc(f), "expected %s, found %s" % (want, got[:100]))
+    from . import C15 as _C15
+    _C15.accessor_shapes(ctx, facts, names=("get_max_value", "is_update_possible"))
